@@ -125,6 +125,8 @@ def attr_heap(name: str) -> str:
 
 
 def heap_sort(name: str):
+    if name.startswith("g:"):
+        return ArrVB  # ghost sets
     if name.startswith("a:"):
         return ArrVV
     return HEAP_SORTS[name]
